@@ -178,13 +178,39 @@ def ev(t: Term, env: Dict[Term, Any]) -> Any:
         return r
     if k == "phi":
         return ev(t[2], env) if ev(t[1], env) else ev(t[3], env)
-    if k == "comp" and t[1] in ("list", "set", "gen") and len(t[3]) == 1:
-        cv, itr, conds = t[3][0]
+    if k == "comp" and t[1] in ("list", "set", "gen") and len(t[3]) >= 1:
         out = []
-        for v in ev(itr, env):
-            e2 = dict(env)
-            e2[cv] = v
-            if all(ev(c, e2) for c in conds):
-                out.append(ev(t[2], e2))
+
+        def gen(level, e1):
+            if level == len(t[3]):
+                out.append(ev(t[2], e1))
+                return
+            cv, itr, conds = t[3][level]
+            for v in ev(itr, e1):
+                e2 = dict(e1)
+                e2[cv] = v
+                if cv[0] == "cvar" and isinstance(v, (tuple, list)):
+                    for kk, vv in enumerate(v):          # tuple targets are read as elem(cvar, k)
+                        e2[("elem", cv, kk)] = vv
+                if all(ev(c, e2) for c in conds):
+                    gen(level + 1, e2)
+        gen(0, env)
         return set(out) if t[1] == "set" else out
+    if k == "fstr":
+        parts = []
+        for p_ in t[1]:
+            if p_[0] == "const":
+                parts.append(str(p_[1]))
+            elif p_[0] == "fmt":
+                v = ev(p_[1], env)
+                spec = p_[2]
+                if spec in ("", None):
+                    parts.append(format(v))
+                elif isinstance(spec, str) and spec.startswith("f'") and spec.endswith("'"):
+                    parts.append(format(v, spec[2:-1]))
+                else:
+                    raise Unsupported("format spec " + str(spec)[:30])
+            else:
+                parts.append(format(ev(p_, env)))
+        return "".join(parts)
     raise Unsupported(show(t)[:50])
